@@ -159,7 +159,8 @@ type buildSpec struct {
 	overlay string // "" | "globals" | "instr"
 	pkg     string // package to build, default ./cmd/vwork
 	gcflags string
-	goarch  string // cross-build (386: the portable code with a 32-bit int; runs on this host)
+	goarch  string   // cross-build (386: the portable code with a 32-bit int; runs on this host)
+	goenv   []string // further build environment (GOAMD64=v3: another optimised configuration)
 }
 
 var (
@@ -277,6 +278,7 @@ func buildWorker(bs buildSpec) (string, error) {
 	if bs.goarch != "" {
 		env = append(env, "GOARCH="+bs.goarch)
 	}
+	env = append(env, bs.goenv...)
 	pkg := bs.pkg
 	if pkg == "" {
 		pkg = "./cmd/vwork"
@@ -319,6 +321,28 @@ var specs = map[string]buildSpec{
 	"plain":        {name: "plain"},
 	"shim":         {name: "shim", overlay: "shim"},
 	"386":          {name: "386", overlay: "globals", goarch: "386"},
+	"amd64v3":      {name: "amd64v3", overlay: "globals", goenv: []string{"GOAMD64=v3"}},
+}
+
+// hostRunsAMD64v3 reports whether this machine can execute GOAMD64=v3 binaries.
+func hostRunsAMD64v3() bool {
+	b, err := os.ReadFile("/proc/cpuinfo")
+	if err != nil || runtime.GOARCH != "amd64" {
+		return false
+	}
+	flags := ""
+	for _, ln := range strings.Split(string(b), "\n") {
+		if strings.HasPrefix(ln, "flags") {
+			flags = " " + ln + " "
+			break
+		}
+	}
+	for _, f := range []string{"avx", "avx2", "bmi1", "bmi2", "f16c", "fma", "abm", "movbe", "xsave"} {
+		if !strings.Contains(flags, " "+f+" ") {
+			return false
+		}
+	}
+	return true
 }
 
 // ---------- running workers ----------
